@@ -9,6 +9,7 @@
 #include <errno.h>
 #include <fcntl.h>
 #include <inttypes.h>
+#include <sys/time.h>
 #include <poll.h>
 #include <pthread.h>
 #include <signal.h>
@@ -1790,7 +1791,16 @@ void engine_run(const struct plan *p, int result_fd, int verbose)
 	(void)result_fd;
 	PL = p;
 	VERBOSE = verbose;
-	alarm(getenv("IVSIM_WATCHDOG") ? (unsigned)atoi(getenv("IVSIM_WATCHDOG")) : 25);
+	{
+		/* watchdog: 25 s of CPU time of this run (a loop that spins, whatever the machine load) and, as
+		 * a back-stop for a run that sleeps for ever, 150 s of real time */
+		struct itimerval itv;
+		unsigned wd = getenv("IVSIM_WATCHDOG") ? (unsigned)atoi(getenv("IVSIM_WATCHDOG")) : 25;
+		memset(&itv, 0, sizeof(itv));
+		itv.it_value.tv_sec = wd;
+		setitimer(ITIMER_PROF, &itv, NULL);
+		alarm(wd * 6);
+	}
 
 	cfg = p->cfg;
 	cfg.faults = (struct simk_fault *)p->faults;
